@@ -243,6 +243,91 @@ def side_dicts(tier):
     return combos
 
 
+# ------------------------------------------------------------------ numbering histories
+SUBS = [
+    ('*', ('beta', 'b_z'), ('var', 'x1')),                                         # one parameter: local index 0, joint index > 0
+    ('+', ('beta', 'b_a'), ('*', ('beta', 'Z_fix'), ('var', 'x2'))),               # a free and a fixed one
+    ('exp', ('*', ('beta', 'b10'), ('var', 'x2'))),
+    ('>', ('var', 'x2'), ('beta', 'a_fix')),                                       # a condition with a fixed parameter
+    ('linutil', (('b_z', 'x1'), ('a_fix', 'x2'))),
+]
+PARENTS = ['+', '*', 'max', 'elem', 'condsum', 'loglogit_av', 'multsum']
+
+
+def renumber_cases():
+    out = []
+    for si in range(len(SUBS)):
+        for p in PARENTS:
+            types = G.KINDS[p][0]
+            slots = [i for i, t in enumerate(types) if t in ('any', 'cond')]
+            for sl in (slots[0], slots[-1]):
+                for alone in ('get_value_c', 'get_value_and_derivatives', 'values_from_database'):
+                    for then in ('simulate', 'prepared'):
+                        out.append((si, p, sl, alone, then))
+    return out
+
+
+def _renumber(idx, rec):
+    """History: [a formula is numbered together with others (BIOGEME dictionary, or Expression.prepare)] ->
+    [one of its sub-formulas is evaluated alone, which numbers it on its own and must put the joint numbering
+    back] -> [the enclosing formula is evaluated again].  The values must still be the mathematical ones."""
+    import numpy as np
+    from vf.engine import make_db, make_biogeme, is_engine_error
+    si, p, sl, alone, then = renumber_cases()[idx]
+    sub_t = SUBS[si]
+    if G.KINDS[p][0][sl] == 'cond' and sub_t[0] != '>':
+        sub_t = ('>', sub_t, ('num', 0.25)) if sub_t[0] != 'linutil' else ('>', ('+', sub_t, ('num', 0.0)), ('num', 0.25))
+    parent_t = G.plant(p, sl, sub_t, G.Rot(1))
+    other_t = ('+', ('*', ('beta', 'B2'), ('var', 'x1')), ('beta', 'b_z'))
+    full = dict(G.PARAMS)
+    rows, refs = valid_rows(parent_t, full, rec)
+    rows_o = valid_rows(other_t, full, rec)[0]
+    keep = [i for i, _ in rows if i in {j for j, _ in rows_o}]
+    case = dict(part='renumber', idx=idx)
+    tag = f'renumber:{R.show(sub_t)[:40]} in {p}[{sl}] alone={alone} then={then}'
+    if not keep:
+        rec.case(None, (tag, 'no-row'), outcome='no-valid-row')
+        return
+    data = [G.ROWS[i] for i in keep]
+    want = [R.evaluate(parent_t, r, full) for r in data]
+    try:
+        builder = R.Builder(G.betas_spec(), share=True)
+        sub_e = builder.build(sub_t)
+        builder.memo[id(sub_t)] = (sub_t, sub_e)
+        parent_e = builder.build(parent_t)          # contains sub_e itself (same object), through the memo
+        other_e = R.Builder(G.betas_spec()).build(other_t)
+        db = make_db(data, G.COLUMNS)
+        if then == 'simulate':
+            b = make_biogeme(db, {'other': other_e, 'parent': parent_e})
+        else:
+            parent_e.prepare(db, 10)
+            b = None
+        # the sub-formula evaluated alone
+        if alone == 'get_value_c':
+            sub_e.get_value_c(database=db, prepare_ids=True)
+        elif alone == 'get_value_and_derivatives':
+            sub_e.get_value_and_derivatives(database=db, gradient=False, hessian=False, bhhh=False, aggregation=False,
+                                            prepare_ids=True)
+        else:
+            db.values_from_database(sub_e)
+        if then == 'simulate':
+            got = [float(v) for v in b.simulate({n: full[n] for n in b.free_beta_names})['parent']]
+        else:
+            got = [float(v) for v in parent_e.get_value_c(database=db, prepare_ids=False)]
+    except Exception as e:
+        rec.case((tag,), (tag, type(e).__name__), outcome='raised')
+        rec.violation(f'C01|numbering-history-raised-{type(e).__name__}|alone={alone}:then={then}',
+                      f'{tag}: {type(e).__name__}: {str(e)[:200]}', case, observed=repr(e)[:300])
+        if is_engine_error(e):
+            rec.retire = True
+        return
+    ok = len(got) == len(want) and all(R.close(a, b_) for a, b_ in zip(got, want))
+    rec.case((tag,), (tag, [round(v, 9) for v in got]), outcome=('renumber', ok))
+    if not ok:
+        rec.violation(f'C01|value-after-a-sub-formula-was-evaluated-alone|alone={alone}:then={then}',
+                      f'{tag}: {got} expected {want}', case, expected=want, observed=got)
+
+
 # ------------------------------------------------------------------ tasks
 def tasks(tier, seed):
     t = []
@@ -252,6 +337,8 @@ def tasks(tier, seed):
         for i in range(0, len(tri), chunk):
             t.append(dict(part='triple', lo=i, hi=min(i + chunk, len(tri)), rot=rot))
     t.append(dict(part='ncdf_tail'))
+    for i in range(len(renumber_cases())):
+        t.append(dict(part='renumber', idx=i))
     sh = share_terms()
     for i in range(0, len(sh), 60):
         t.append(dict(part='share', lo=i, hi=min(i + 60, len(sh))))
@@ -294,6 +381,8 @@ def run_task(task):
                     rec.sample(dict(shared=tag, formula=R.show(term)))
                 check_engine(term, rec, tag + ':shared', f'shared:{p}', dict(case, shared=True), share=True)
                 check_engine(_deepcopy_term(term), rec, tag + ':copies', f'copies:{p}', dict(case, shared=False), share=False)
+        elif part == 'renumber':
+            _renumber(task['idx'], rec)
         elif part == 'ncdf_tail':
             # the normal CDF on a grid reaching into both tails (the engine's upper tail is a recorded finding)
             for x in (-8.0, -6.0, -3.0, 0.0, 3.0, 5.5, 6.0, 6.5, 7.0, 8.0):
@@ -377,6 +466,9 @@ def replay(case):
     rec = Rec()
     try:
         part = case['part']
+        if part == 'renumber':
+            _renumber(case['idx'], rec)
+            return rec.violations
         if part == 'triple':
             term = G.triple_term(case['p'], case['s'], case['q'], case['rot'])
             kn = f'{case["p"]}[{G.slot_name(case["p"], case["s"])}]'
